@@ -211,7 +211,7 @@ def gen(src, fn):
                 n.slice = ast.Slice(lower=sl.lower, upper=None, step=sl.step)
                 rep(e, n, "SLICE", f"`{short(e)}` drop upper")
         elif isinstance(e, ast.Await) and isinstance(e.value, ast.Call):
-            pass
+            rep(e, e.value, "AWAIT", f"`{short(e)}` drop await")
 
     visit(fn)
     return out
